@@ -26,7 +26,7 @@ def check(tr):
                 t, {k: v for k, v in list(res.items())[:4]}), c["s0"])
             continue
         rt, run, idx = tr.by_sn[sn]
-        rep = tr.runs[(rt, run)]["reports"][idx]
+        rep = tr.report(rt, run, idx)
         for k, v in rep["values"].items():
             if k not in res or res[k] != v:
                 bad("R1.value", "trial %s level %s: key %s reported %r, arrived %r" % (t, rep["level"], k, v, res.get(k)), c["s0"], key=k if k.startswith("p_") else "metric")
